@@ -147,6 +147,23 @@ theorem C11_order (fs fs' : List File) (hp : fs.Perm fs') (hd : distinctFragment
       db.version = db'.version ∧ ∀ k, linkLookup db k = linkLookup db' k :=
   load_order fs fs' hp hd
 
+/-- … and so does everything `refresh()` derives from that map for a layer: the communication parameters that apply to
+    it (`layer.comparam_refs`) and, per object category, the objects it ends up with after value inheritance.  Both
+    are computed by recursion through `parent_ref.layer` over described attributes only (model: the PARENT-REF chains
+    unfolded through the ODXLINK map, then `Comparam.available` / `Inherit.computeAvailable`, the models of C15 / C09),
+    so a derived layer whose document is added before its parent's document gets the same result -/
+theorem C11_order_effective (fs fs' : List File) (hp : fs.Perm fs') (hd : distinctFragments fs) (db db' : Db)
+    (h : processAll fs = .ok db) (h' : processAll fs' = .ok db') (raw : Nat → Option RawLayer) (fuel : Nat)
+    (k : String × String) :
+    effectiveComparams db raw fuel k = effectiveComparams db' raw fuel k ∧
+    effectiveObjects db raw fuel k = effectiveObjects db' raw fuel k :=
+  effective_order fs fs' hp hd db db' h h' raw fuel k
+
+example : distinctFragments exLayerFiles ∧ exLayerFiles.Perm exLayerFiles.reverse ∧
+    exTags (processAll exLayerFiles) ("V", "e") = some [20, 11, 21] ∧
+    exTags (processAll exLayerFiles.reverse) ("V", "e") = some [20, 11, 21] :=
+  ⟨by unfold distinctFragments; decide, (List.reverse_perm _).symm, by decide, by decide⟩
+
 /-- when loading fails: exactly when two files disagree about the model version — a property of the set of files -/
 theorem C11_order_error_iff (fs : List File) :
     processAll fs = .error () ↔ ∃ f ∈ fs, ∃ g ∈ fs, f.version ≠ g.version := processAll_error_iff fs
